@@ -697,11 +697,81 @@ def gen_cutoff_newreq_program(rng):
     return p, steps, {'bu': {bu}, 'probe': {probe: bu}}
 
 
+def gen_reported_products_program(rng):
+    """Directed family for C03/C04: the bottom-up build is told not only about the changed sources but also about generated
+    resources (a file watcher reports outputs too) -- before or after the source whose change makes their generator rewrite them.
+    The readers of a rewritten product must be checked AFTER the write, whatever was checked for that product before; the reader
+    has no other route to being rescheduled (its require of the generator accepts the generator's new output)."""
+    p = Prog(); p.kind = 'wf'; p.exact_only = False
+    n = rng.randint(1, 2)                      # generators
+    p.sources = list(range(n)) + [5]
+    tid = 0; gens = []
+    for i in range(n):
+        g = 10 + i
+        out = ('k', rng.randint(0, 5)) if rng.random() < 0.6 else ('a',)
+        p.tasks[tid] = ('R', i, 0, ('W', g, 0, ('a',), ('T', out)))
+        p.generated[g] = (tid, 0); gens.append((tid, g, out)); tid += 1
+    readers = []
+    for (gt, g, out) in gens:
+        for _ in range(rng.randint(1, 2)):
+            c = 2 if (out == ('a',) or rng.random() < 0.4) else 0          # accepts the generator's new output
+            body = ('Q', gt, c, ('R', g, 0, ('T', ('a',))))
+            if rng.random() < 0.3: body = ('R', 5, 0, body)
+            p.tasks[tid] = body; readers.append(tid); tid += 1
+    if rng.random() < 0.5:
+        p.tasks[tid] = ('Q', rng.choice(readers), 0, ('T', ('a',))); readers.append(tid); tid += 1
+    steps = [['E', str(i), '1'] for i in range(n)] + [['E', '5', '1']]
+    roots = readers[:]; rng.shuffle(roots)
+    steps.append(['S', str(len(roots))] + sum((['q', str(t)] for t in roots), []))
+    ch = [i for i in range(n) if rng.random() < 0.8] or [0]
+    for i in ch: steps.append(['E', str(i), str(rng.randint(2, 4))])
+    told = [str(i) for i in ch] + [str(10 + i) for i in range(n) if rng.random() < 0.8] + (['5'] if rng.random() < 0.3 else [])
+    rng.shuffle(told)
+    bu = len(steps)
+    steps.append(['S', '1', 'b', str(len(told))] + told)
+    allt = sorted(p.tasks)
+    probe = len(steps)
+    steps.append(['S', str(len(allt))] + sum((['q', str(t)] for t in allt), []))
+    return p, steps, {'bu': {bu}, 'probe': {probe: bu}}
+
+
 def gen_abort_bu_program(rng):
     """Directed family for C04/C19: tasks abort (panic guarded by a source value) in earlier sessions, which leaves tasks
     with recorded read dependencies but no output; the cause is then removed and a bottom-up build is run over the changed
     sources, in which such a task is both scheduled (through its read dependency) and freshly required by another task."""
     p = Prog(); p.kind = 'panic'; p.exact_only = True
+    if rng.random() < 0.35:
+        # second family: Mid(1) is aborted AFTER it recorded a require (the panic guard r6 is read last); later it is executed again
+        # and requires something else (mode r5).  Root(0) requires Mid only once r7 is set.  The bottom-up build is told about all
+        # changes, or only about those of the tasks that have an output (r7, r8, r9): then Mid, which has none, is not scheduled
+        # but executed as a first-time require of Root; what its aborted run recorded must be gone afterwards.
+        p.sources = [5, 6, 7, 8, 9]
+        a, b = (2, 3) if rng.random() < 0.5 else (3, 2)
+        p.tasks[0] = ('R', 7, 0, ('I', ('l', 1), ('T', ('a',)), ('Q', 1, 0, ('T', ('a',)))))
+        p.tasks[1] = ('R', 5, 0, ('I', ('l', 1), ('Q', a, 0, ('R', 6, 0, ('I', ('l', 2), ('P',), ('T', ('a',))))),
+                                                 ('Q', b, 0, ('R', 6, 0, ('I', ('l', 2), ('P',), ('T', ('a',)))))))
+        p.tasks[2] = ('R', 8, 0, ('T', ('a',)))
+        p.tasks[3] = ('R', 9, 0, ('T', ('a',)))
+        steps = [['E', '5', '0'], ['E', '6', '1'], ['E', '7', '0'], ['E', '8', '1'], ['E', '9', '1']]
+        first = [['S', '1', 'q', '0'], ['S', '1', 'q', '1']] + ([['S', '1', 'q', str(b)]] if rng.random() < 0.6 else [])
+        rng.shuffle(first)
+        steps += first
+        steps += [['E', '5', '1'], ['E', '6', '0'], ['E', '7', '1']]
+        changed = [5, 6, 7]
+        src_a = 8 if a == 2 else 9
+        now = rng.random() < 0.5
+        if now:
+            steps.append(['E', str(src_a), '2']); changed.append(src_a)
+        told = changed if rng.random() < 0.4 else [r for r in changed if r >= 7]
+        told = told[:]; rng.shuffle(told)
+        bus = {len(steps)}
+        steps.append(['S', '1', 'b', str(len(told))] + [str(r) for r in told])
+        if not now:
+            steps.append(['E', str(src_a), '2'])
+            bus.add(len(steps))
+            steps.append(['S', '1', 'b', '1', str(src_a)])
+        steps.append(['S', '1', 'q', str(rng.randrange(4))])
+        return p, steps, {'bu': bus}
     n = rng.randint(2, 5)
     p.sources = list(range(n))
     for t in range(n):
@@ -862,6 +932,26 @@ def gen_mid_session_program(rng):
     bottom-up build of that session made tasks consistent -- and the change is then reported to a bottom-up build of the SAME
     session.  The bottom-up build must still bring every known task up to date."""
     p = Prog(); p.kind = 'wf'; p.exact_only = True
+    if rng.random() < 0.12:
+        # a cycle that is closed while the session is alive: Outer(1) requires Inner(0) (through k wrappers); Inner reads the marker
+        # r51 and requires Outer once it exists.  One session requires Outer (everything consistent), then the marker appears and
+        # is reported to a bottom-up build of that session: it must abort with a cyclic-dependency error
+        p.kind = 'inject'
+        p.sources = [51]
+        k = rng.randint(0, 2)
+        top = 1 + k
+        p.tasks[0] = ('R', 51, 0, ('I', ('l', 0), ('T', ('a',)), ('Q', top, 0, ('T', ('a',)))))
+        for j in range(1, top + 1):
+            p.tasks[j] = ('Q', j - 1, 0, ('T', ('a',)))
+        first = [top] + ([0] if rng.random() < 0.5 else [])
+        steps = []
+        if rng.random() < 0.5:
+            steps.append(['S', '1', 'q', str(top)])
+        sess = sum((['q', str(t)] for t in first), []) + ['e', '51', '1', 'b', '1', '51']
+        bu = len(steps)
+        steps.append(['S', str(len(first) + 2)] + sess)
+        steps.append(['S', '1', 'q', '0'])
+        return p, steps, {'bu': {bu}}
     if rng.random() < 0.3:
         # directed diamond: leaf A reads r50; a chain B_k -> .. -> B_1 -> A; X reads a marker (absent at first) and, once it exists,
         # requires A and B_k (either order).  An earlier session makes the chain and X known; then one session requires A or
